@@ -549,6 +549,7 @@ func c06Types(c *h.Ctx) error {
 				continue
 			}
 			c.Exec(1)
+			c.Retain(msite, b, map[string]interface{}{"type": ln.T})
 			if merr != nil {
 				c.Fail(msite, "marshal-error", fmt.Sprintf("in-domain value cannot be encoded (route %q): %v", rt.name, merr), c06SampleOf(ln.T, ln.V, nil, nil))
 				continue
